@@ -36,6 +36,8 @@ OPS = [
     {"k": "remove_file", "path": H("a/b/f")},
     {"k": "remove_dir", "path": H("a/b")},
     {"k": "remove_all", "path": H("d")},
+    {"k": "remove_all", "path": H("file")},          # a non-directory: when its unlink fails there is nothing to scan
+    {"k": "remove_all", "path": H("a/b/f")},
     {"k": "rename", "src": H("file"), "dst": H("a/b/moved"), "flags": 0},
     {"k": "rename", "src": H("file"), "dst": H("a/b/f"), "flags": 1},          # RENAME_NOREPLACE onto an existing file: must fail
     {"k": "rename", "src": H("file"), "dst": H("a/b/moved2"), "flags": 1},
